@@ -15,7 +15,7 @@ EXPLANATION = ("bounded stand-in: the multi-agent scenario domain/problem is spl
                "(file names permuted so that glob order varies), combined by MultiAgentDomainsConverter / MultiAgentProblemsConverter and "
                "compared with the union by view; Domain().types, a previously parsed domain and module-level objects are digested before and after.")
 TRUSTED = ["spec/views.py", "glob order is varied through file names only (the OS decides the actual discovery order)"]
-ASSUMPTIONS = ["bounded: 3 agents; splits = each agent file holds the shared vocabulary plus that agent's private predicate/action/objects/goals"]
+ASSUMPTIONS = ["bounded: 3 agents (thorough: 4); splits = each agent file holds the shared vocabulary plus that agent's private predicate/action/objects/goals"]
 
 SHARED_HEAD = """(define (domain ma)
 (:requirements :typing :negative-preconditions :fluents)
@@ -57,12 +57,13 @@ class Combine(Harness):
     prop = "C17"
     functions = ("MultiAgentDomainsConverter.locate_domains", "MultiAgentDomainsConverter._add_dummy_actions", "MultiAgentDomainsConverter.export_combined_domain",
                  "MultiAgentProblemsConverter.combine_problems", "MultiAgentProblemsConverter.export_combined_problem", "Domain.__init__")
-    bound = {"quick": "agent subsets of {1,2,3} (7) x all file-name permutations (<= 6) x dummy actions on/off; preceded and followed by parsing an unrelated typed and an untyped domain", "thorough": "same"}
+    bound = {"quick": "agent subsets of {1,2,3} (7) x all file-name permutations (<= 6) x dummy actions on/off; preceded and followed by parsing an unrelated typed and an untyped domain", "thorough": "agent subsets of {1,2,3,4} (15) x all file-name permutations (<= 24) x dummy actions on/off"}
     rule = "(agent subset, name permutation, dummy flag); non-trivial = >= 2 agents; distinct by input"
 
     def inputs(self, tier, seed):
-        for n in (1, 2, 3):
-            for ks in itertools.combinations((1, 2, 3), n):
+        pool = (1, 2, 3) if tier == "quick" else (1, 2, 3, 4)       # thorough: up to 4 agent files (all subsets, every discovery order)
+        for n in range(1, len(pool) + 1):
+            for ks in itertools.combinations(pool, n):
                 for perm in itertools.permutations(range(n)):
                     for dummy in (False, True):
                         yield {"agents": list(ks), "names": list(perm), "dummy": dummy}
